@@ -156,7 +156,11 @@ func consUnits(thorough bool) []*unit {
 			if !(thorough || quickSubset[st]) {
 				continue
 			}
-			for _, name := range []string{"NewRoundStep", "VoteSetBits"} {
+			pairMsgs := []string{"NewRoundStep", "VoteSetBits"}
+			if thorough {
+				pairMsgs = consSeedNames
+			}
+			for _, name := range pairMsgs {
 				st, pm, name := st, pm, name
 				add(&unit{State: st, Peer: pm, Kind: "pair", Msg: name, Est: 6000, gen: func(w *worker, u *unit, emit func(*caseT)) {
 					s := seedByName(w.cons.seedsFor(st), name)
